@@ -467,6 +467,20 @@ def check_mask(ctx, tag, m, rng, kernels=KERNELS):
         nleave += bool(leaves)
         nonsq_fit = nonsq_fit or (not leaves and k[0] != k[1])
     ctx.check(np.array_equal(_np(mask), m), "input_mask_untouched", mask=m, got=lambda: _np(mask))
+    if tag == "rand" and m.size <= 160:
+        # the same flattened content cut into the other frame shapes, one after the other in this process (forwards, then backwards):
+        # every mask's sets are its own
+        flat = m.ravel()
+        shapes = [(h, flat.size // h) for h in range(1, flat.size + 1) if flat.size % h == 0 and (h, flat.size // h) != m.shape]
+        for (h, w) in (shapes + shapes[::-1])[:8]:
+            mm = flat.reshape(h, w).copy()
+            if mm.all():
+                continue
+            g2 = gen.scales_origin(rng)
+            mk2 = aa.Mask2D(mask=mm.copy(), pixel_scales=g2[0], origin=g2[1])
+            mu, mn_, wk, _ = refs(mm)
+            check_sets(ctx, mm, mk2, g2, ref.pixel_centres(mm.shape, g2[0], g2[1]), mu, mn_, wk)
+            ctx.classes["same_content_other_shape"] += 1
     if tag == "rand" and int((~m).sum()) >= 2:
         # history: the views were all read above; now the mask is edited in place (Mask2D.__setitem__) / copied and edited,
         # and every view must denote the pixel sets of the mask *as it is now* (stale index tables would show here)
